@@ -45,7 +45,7 @@ RULE = ("allocsafe4: addmul_ui/submul_ui/addmul/submul with every sign combinati
         "aorsmul_i.c:169, products with a zero top limb, one-limb multiplier in either position, all five alias modes, destination allocation "
         "exact / need-1 / need / generous")
 
-PINS = [("mpz/aorsmul_i.c", None), ("mpz/aorsmul.c", None), ("mpz/mul.c", None), ("mpz/tdiv_q.c", None), ("mpz/tdiv_r.c", None), ("mpf/urandomb.c", None), ("mpz/sqrt.c", None), ("mpz/tdiv_qr.c", None), ("mpz/sqrtrem.c", None), ("mpz/set_d.c", None)]
+PINS = [("mpz/aorsmul_i.c", None), ("mpz/aorsmul.c", None), ("mpz/mul.c", None), ("mpz/tdiv_q.c", None), ("mpz/tdiv_r.c", None), ("mpf/urandomb.c", None), ("mpz/sqrt.c", None), ("mpz/tdiv_qr.c", None), ("mpz/sqrtrem.c", None), ("mpz/set_d.c", None), ("mpq/inv.c", None)]
 
 def nl(x): return (abs(x).bit_length() + 63) // 64
 
@@ -221,6 +221,13 @@ def gen_set_d(rng):
     w = sgnd(rng, special(rng, rng.randrange(1, 4)))
     return "as4_set_d %s %x" % (obj(rng, w, need), b)
 
+def gen_qinv(rng):
+    """mpq_inv: in place (blocks exchanged) and into another variable with fields smaller / larger than needed; negative and zero numerator"""
+    n = sgnd(rng, special(rng, rng.randrange(1, 5))) if rng.random() < 0.9 else 0
+    d = special(rng, rng.randrange(1, 5)) or 1
+    w1 = sgnd(rng, special(rng, rng.randrange(1, 4))); w2 = special(rng, rng.randrange(1, 4)) or 1
+    return "as4_mpq_inv %x %s %s %s %s" % (rng.randrange(2), obj(rng, w1, nl(d)), obj(rng, w2, max(nl(n), 1)), obj(rng, n), obj(rng, d))
+
 def gen_ops(rng, tier, ctx=None):
     n = 1000 if tier == "quick" else 12000
     for _ in range(n):
@@ -239,6 +246,7 @@ def gen_ops(rng, tier, ctx=None):
             yield "as4_sqrtrem %x %s %s %s %s %s" % (rng.randrange(3), l[2], l[3], obj(rng, w2, max(nl(int(l[5], 16)), 1)), l[4], l[5])
         yield gen_divqr(rng)
         if _ % 2 == 1: yield gen_set_d(rng)
+        if _ % 4 == 1: yield gen_qinv(rng)
 
 def nontrivial(line):
     return line if line.startswith("as4_") else None
